@@ -65,15 +65,7 @@ def _r1(run, beam, att):
         else:
             run.fail('C04-R1', K + 'density|range-guard', beam.mod.relpath, fn.lineno,
                      'Beam.density consults the attenuator without first returning 0 for z < 0 or z > length (guards: %s)' % sorted(f))
-    fn = _m(beam, 'direction')
-    z = fn.args.args[3].arg
-    run.subject('C04-R1')
-    first = fn.body[0] if not isinstance(fn.body[0], ast.Expr) else fn.body[1]
-    if isinstance(first, ast.If) and norm(first.test) in ('%s <= 0' % z, '%s <= 0.0' % z) and isinstance(first.body[0], ast.Return) \
-            and norm(first.body[0].value) == 'self.BEAM_AXIS':
-        run.ok('C04-R1', 'Beam.direction at/behind the source', 'z <= 0 -> BEAM_AXIS')
-    else:
-        run.fail('C04-R1', K + 'direction|source-guard', beam.mod.relpath, fn.lineno, 'Beam.direction does not return the beam axis for z <= 0')
+    _direction(run, beam)
     fn = _m(att, 'density')
     run.subject('C04-R1')
     zero = [r for r in ast.walk(fn) if isinstance(r, ast.Return) and norm(r.value) in ('0', '0.0')]
@@ -96,6 +88,93 @@ def _r1(run, beam, att):
     else:
         run.fail('C04-R1', att.mod.name + '|SingleRayAttenuator|setter:clamp_sigma|square', att.mod.relpath, att.node.lineno,
                  'clamp_sigma is not stored squared although the density compares squared radii')
+
+
+def _direction(run, beam):
+    """Beam.direction on every path: the beam axis exactly where the documented field is the axis (z <= 0, or both transverse
+    components vanish under the path's own tests), else (x z^2 tx^2 / sx^2, y z^2 ty^2 / sy^2, z) normalised."""
+    from ..pathinterp import PathInterp
+    fn = _m(beam, 'direction')
+    x, y, z = [a.arg for a in fn.args.args[1:4]]
+    K = beam.mod.name + '|Beam|direction|'
+    VEC = {}
+
+    class DirEval(SymEval):
+        def call(self, n):
+            f = n.func
+            if isinstance(f, ast.Attribute) and f.attr == 'normalise' and not n.args:
+                v = self.ev(f.value)
+                if v.key() in VEC:
+                    name = 'UNIT#%d' % len(VEC)
+                    VEC[name] = VEC[v.key()]
+                    return L(name)
+                return L('UNIT(%s)' % v.key())
+            if dotted(f) in ('new_vector3d', 'Vector3D') and len(n.args) == 3:
+                name = 'VEC#%d' % len(VEC)
+                VEC[name] = [self.ev(a_) for a_ in n.args]
+                return L(name)
+            return super().call(n)
+    try:
+        paths = PathInterp(fn, (), {}, evaluator=DirEval, max_paths=64).run()
+    except Exception as e:
+        run.subject('C04-R1')
+        run.undecided('C04-R1', 'Beam.direction', 'cannot interpret: %s' % e)
+        return
+    S2 = L('self._sigma') * L('self._sigma')
+    tx, ty = L('self._tanxdiv'), L('self._tanydiv')
+    zz = L(z) * L(z)
+    want = [L(x) * zz * tx * tx / (S2 + zz * tx * tx), L(y) * zz * ty * ty / (S2 + zz * ty * ty), L(z)]
+    n_axis = n_field = 0
+    for p in paths:
+        dec = dict(p.decisions)
+        behind = any((k.replace(' ', '') in ('%s<=0' % z, '%s<=0.0' % z) and b) or (k.replace(' ', '') in ('%s>0' % z, '%s>0.0' % z) and not b) for k, b in dec.items())
+        v = p.returned
+        if v is None:
+            run.subject('C04-R2')
+            run.fail('C04-R2', K + 'no-value', beam.mod.relpath, fn.lineno, 'Beam.direction returns nothing on the path %s' % dec)
+            continue
+        if v.key() == 'self.BEAM_AXIS':
+            run.subject('C04-R1')
+            if behind:
+                n_axis += 1
+                run.ok('C04-R1', 'Beam.direction at/behind the source', 'z <= 0 -> BEAM_AXIS')
+                continue
+            # the axis is returned in front of the source: the documented transverse components must vanish under the path's tests
+            zero = {}
+            for k, b in dec.items():
+                m = k.replace(' ', '')
+                for suf in ('==0', '==0.0'):
+                    if m.endswith(suf) and b:
+                        zero[m[:-len(suf)]] = C(0)
+            cx, cy = want[0].subst(zero), want[1].subst(zero)
+            if cx.is_const() and cx.const_value() == 0 and cy.is_const() and cy.const_value() == 0:
+                run.ok('C04-R1', 'Beam.direction shortcut', 'axis returned where both transverse components vanish: %s' % sorted(zero))
+            else:
+                run.fail('C04-R1', K + 'axis-off-axis', beam.mod.relpath, fn.lineno,
+                         'Beam.direction returns the beam axis on the path %s, where the documented direction has the transverse components '
+                         '(%s, %s): streamlines no longer keep x/sigma_x(z) and y/sigma_y(z) constant' % (dec, cx.key()[:80], cy.key()[:80]))
+            continue
+        run.subject('C04-R2')
+        comps = VEC.get(v.key()) if v.key().startswith('UNIT#') else None
+        if comps is None:
+            run.undecided('C04-R2', 'direction components', 'returned value %s not recognised' % v.key()[:60])
+            continue
+        if behind:
+            run.fail('C04-R1', K + 'source-guard', beam.mod.relpath, fn.lineno, 'Beam.direction does not return the beam axis for z <= 0')
+            continue
+        if all(c_.eq(w_) for c_, w_ in zip(comps, want)):
+            n_field += 1
+            run.ok('C04-R2', 'direction components', '(x z^2 tx^2 / sx^2, y z^2 ty^2 / sy^2, z).normalise()')
+        else:
+            run.fail('C04-R2', K + 'components', beam.mod.relpath, fn.lineno,
+                     'Beam.direction returns %s normalised; documented: (x z^2 tx^2/sigma_x^2, y z^2 ty^2/sigma_y^2, z) normalised with '
+                     'sigma^2 = sigma0^2 + z^2 t^2' % [c_.key()[:80] for c_ in comps])
+    if not n_axis:
+        run.subject('C04-R1')
+        run.fail('C04-R1', K + 'source-guard', beam.mod.relpath, fn.lineno, 'Beam.direction does not return the beam axis for z <= 0')
+    if not n_field:
+        run.subject('C04-R2')
+        run.undecided('C04-R2', 'direction components', 'no path returning the direction field was recognised')
 
 
 def _r2(run, prog, beam, att):
@@ -148,30 +227,6 @@ def _r2(run, prog, beam, att):
         else:
             run.fail('C04-R2', att.mod.name + '|SingleRayAttenuator|_calc_attenuation|tan:' + ax, att.mod.relpath, ca.lineno,
                      '_tan%sdiv = %s; expected %s' % (ax, sts.get('self._tan%sdiv' % ax), want))
-    # --- beam direction
-    fn = _m(beam, 'direction')
-    x, y, z = [a.arg for a in fn.args.args[1:4]]
-    e, rec = body_env(fn)
-    K = beam.mod.name + '|Beam|direction|'
-    ret = [r for r in ast.walk(fn) if isinstance(r, ast.Return) and norm(r.value) != 'self.BEAM_AXIS']
-    run.subject('C04-R2')
-    ok = False
-    detail = None
-    if ret and isinstance(ret[-1].value, ast.Call) and isinstance(ret[-1].value.func, ast.Attribute) and ret[-1].value.func.attr == 'normalise':
-        inner = ret[-1].value.func.value
-        if isinstance(inner, ast.Call) and dotted(inner.func) in ('new_vector3d', 'Vector3D') and len(inner.args) == 3:
-            comps = [e.ev(a) for a in inner.args]
-            S2 = L('self._sigma') * L('self._sigma')
-            tx, ty = L('self._tanxdiv'), L('self._tanydiv')
-            zz = L(z) * L(z)
-            want = [L(x) * zz * tx * tx / (S2 + zz * tx * tx), L(y) * zz * ty * ty / (S2 + zz * ty * ty), L(z)]
-            ok = all(c.eq(w) for c, w in zip(comps, want))
-            detail = [c.key()[:80] for c in comps]
-    if ok:
-        run.ok('C04-R2', 'direction components', '(x z^2 tx^2 / sx^2, y z^2 ty^2 / sy^2, z).normalise()')
-    else:
-        run.fail('C04-R2', K + 'components', beam.mod.relpath, fn.lineno,
-                 'Beam.direction returns %s; documented: (x z^2 tx^2/sigma_x^2, y z^2 ty^2/sigma_y^2, z) normalised with sigma^2 = sigma0^2 + z^2 t^2' % detail)
     for ax in 'xy':
         st = beam.setters.get('divergence_' + ax)
         run.subject('C04-R2')
@@ -283,27 +338,71 @@ def _r3(run, beam, att):
     else:
         run.fail('C04-R3', K + '_beam_attenuation|sampling', att.mod.relpath, fn.lineno,
                  'the stopping coefficient is not sampled at every axis point with the beam velocity direction.normalise() * speed (beam_velocity = %s)' % bvel)
-    fn = _m(att, '_calc_attenuation')
-    sts = {norm(t): norm(v) for t, v, st in stores(fn)}
+    from ..inline import propagate
+    fn0 = _m(att, '_calc_attenuation')
+    fn = propagate(fn0)
     run.subject('C04-R3')
-    if sts.get('beam_z') == 'np.linspace(0.0, self._beam.length, nbeam)':
-        run.ok('C04-R3', 'sample axis', 'linspace(0, length, n)')
+    # the axis handed to the attenuation integral (third coordinate array) is linspace(0, beam length, n)
+    lins = [v for t, v, st in stores(fn) if isinstance(v, ast.Call) and dotted(v.func) in ('np.linspace', 'numpy.linspace', 'linspace') and len(v.args) >= 3]
+    if len(lins) != 1:
+        run.undecided('C04-R3', 'sample axis', 'expected one linspace axis, found %d' % len(lins))
     else:
-        run.fail('C04-R3', K + '_calc_attenuation|axis', att.mod.relpath, fn.lineno, 'sample axis is %s; expected linspace(0, beam length, n)' % sts.get('beam_z'))
+        a0, a1 = norm(lins[0].args[0]), norm(lins[0].args[1])
+        endpoint = [k for k in lins[0].keywords if k.arg == 'endpoint' and norm(k.value) == 'False']
+        if a0 in ('0.0', '0') and a1 in ('self._beam.length', 'self._beam.get_length()') and not endpoint:
+            run.ok('C04-R3', 'sample axis', 'linspace(0, length, n)')
+        elif a1 in ('self._beam.length', 'self._beam.get_length()') or a0 in ('0.0', '0'):
+            run.fail('C04-R3', K + '_calc_attenuation|axis', att.mod.relpath, fn0.lineno,
+                     'sample axis is %s; expected linspace(0, beam length, n) including both ends' % norm(lins[0]))
+        else:
+            run.undecided('C04-R3', 'sample axis', 'axis %s not recognised' % norm(lins[0]))
     run.subject('C04-R3')
     call = [c for c in ast.walk(fn) if isinstance(c, ast.Call) and norm(c.func) == 'self._beam_attenuation']
-    want = ['beam_z', 'xaxis', 'yaxis', 'zaxis', 'self._beam.energy', 'self._beam.power', 'self._beam.element.atomic_weight', 'direction']
-    if call and [norm(a) for a in call[0].args] == want and sts.get('self._density', '').startswith('Interpolator1DArray(beam_z, beam_density,'):
-        run.ok('C04-R3', 'attenuation wiring', 'energy, power, atomic weight, direction; density tabulated on the same axis')
+    callee = _m(att, '_beam_attenuation')
+    from ..calls import bind_call
+    b = bind_call(call[0], callee, skip_self=True) if call else None
+    ps = [a.arg for a in callee.args.args[1:]]
+    if not call or b is None or len(ps) < 8:
+        run.undecided('C04-R3', 'attenuation wiring', 'call of _beam_attenuation not recognised')
     else:
-        run.fail('C04-R3', K + '_calc_attenuation|wiring', att.mod.relpath, fn.lineno,
-                 '_calc_attenuation calls _beam_attenuation(%s) and tabulates %s' % ([norm(a) for a in call[0].args] if call else None, sts.get('self._density')))
-    run.floor('C04-R3', 6)
+        got = {p_: norm(b[p_]) for p_ in ps if p_ in b}
+        want = {ps[4]: ('self._beam.energy', 'self._beam.get_energy()'), ps[5]: ('self._beam.power', 'self._beam.get_power()'),
+                ps[6]: ('self._beam.element.atomic_weight', 'self._beam.get_element().atomic_weight')}
+        bad = {k: got.get(k) for k, w in want.items() if got.get(k) not in w}
+        dens = [v for t, v, st in stores(fn) if norm(t) == 'self._density' and isinstance(v, ast.Call)]
+        axis_name = got.get(ps[0])
+        if bad:
+            run.fail('C04-R3', K + '_calc_attenuation|wiring', att.mod.relpath, fn0.lineno, '_calc_attenuation hands _beam_attenuation %s' % bad)
+        elif not dens or not dens[0].args or norm(dens[0].args[0]) != axis_name:
+            run.fail('C04-R3', K + '_calc_attenuation|wiring', att.mod.relpath, fn0.lineno,
+                     'the attenuated density is tabulated as %s, not on the axis %s it was computed on' % (norm(dens[0])[:60] if dens else None, axis_name))
+        else:
+            run.ok('C04-R3', 'attenuation wiring', 'energy, power, atomic weight; density tabulated on the same axis')
+    # one frame: the sample points and the beam direction are taken to plasma coordinates with the same transform
+    run.subject('C04-R3')
+    tfs = [c for c in ast.walk(fn) if isinstance(c, ast.Call) and isinstance(c.func, ast.Attribute) and c.func.attr == 'transform' and len(c.args) == 1]
+    frames = sorted({norm(c.args[0]) for c in tfs})
+    if not tfs:
+        run.undecided('C04-R3', 'frames', 'no transform found in _calc_attenuation')
+    elif frames == ['self._beam.to(self._plasma)']:
+        run.ok('C04-R3', 'frames', 'sample points and beam direction both transformed with beam.to(plasma): velocities are compared in plasma coordinates')
+    elif len(frames) > 1:
+        run.fail('C04-R3', K + '_calc_attenuation|frames', att.mod.relpath, fn0.lineno,
+                 'the axis points and the beam direction are transformed with different transforms %s: the beam velocity is subtracted from species '
+                 'velocities given in plasma coordinates, so the interaction energy and the stopping coefficient are wrong when the plasma node is '
+                 'rotated' % frames)
+    else:
+        run.fail('C04-R3', K + '_calc_attenuation|frames', att.mod.relpath, fn0.lineno,
+                 'points and direction are transformed with %s, not into plasma coordinates (beam.to(plasma)) where the species are sampled' % frames)
+    run.floor('C04-R3', 7)
 
 
 _BN = 'cherab/core/beam/node.pyx'
 _SR = 'cherab/core/model/attenuator/singleray.pyx'
 MUTANTS = [
+    dict(name='direction-axis-when-one-divergence-is-zero', file=_BN, find="        # calculate direction from divergence\n",
+         replace="        if self._tanxdiv == 0 or self._tanydiv == 0:\n            return self.BEAM_AXIS\n        # calculate direction from divergence\n", expect='C04-R1'),
+    dict(name='beam-direction-in-world-frame', file=_SR, find="self._beam.BEAM_AXIS.transform(beam_to_plasma)", replace="self._beam.BEAM_AXIS.transform(self._beam.to_root())", expect='C04-R3'),
     dict(name='range-guard-deleted', file=_BN, find="        if z < 0 or z > self._length:\n            return 0\n", replace="", expect='C04-R1'),
     dict(name='range-guard-only-source', file=_BN, find="        if z < 0 or z > self._length:", replace="        if z < 0:", expect='C04-R1'),
     dict(name='gaussian-exponent', file=_SR, find="gaussian_sample = exp(-0.5 * norm_radius_sqr)", replace="gaussian_sample = exp(-1 * norm_radius_sqr)", expect='C04-R2'),
@@ -318,5 +417,7 @@ MUTANTS = [
     dict(name='direction-at-source', file=_BN, find="        if z <= 0:\n            return self.BEAM_AXIS", replace="        if z < -1:\n            return self.BEAM_AXIS", expect='C04-R1'),
 ]
 TWINS = [
+    dict(name='direction-axis-when-both-divergences-are-zero', file=_BN, find="        # calculate direction from divergence\n",
+         replace="        if self._tanxdiv == 0 and self._tanydiv == 0:\n            return self.BEAM_AXIS\n        # calculate direction from divergence\n"),
     dict(name='square-expanded', file=_SR, find="        sigma_x = sqrt(sigma0_sqr + (z * self._tanxdiv)**2)", replace="        sigma_x = sqrt(z * z * self._tanxdiv * self._tanxdiv + sigma0_sqr)"),
 ]
